@@ -39,6 +39,12 @@ impl Peekable {
     }
 
     fn next_back(&mut self) -> Option<Output> {
+        // A forward-only iterator always gives `None` from `next_back`, which doesn't mean that
+        // it's exhausted: the peeked front value isn't its last value.
+        if !self.iter.is_bidirectional() {
+            return None;
+        }
+
         self.peeked_back.take().map(Output::Value).or_else(|| {
             self.iter
                 .next_back()
@@ -110,11 +116,7 @@ impl KotoObject for Peekable {
     }
 
     fn iterator_next_back(&mut self, _vm: &mut KotoVm) -> Option<Output> {
-        self.peeked_back.take().map(Output::Value).or_else(|| {
-            self.iter
-                .next_back()
-                .or_else(|| self.peeked_front.take().map(Output::Value))
-        })
+        self.next_back()
     }
 }
 
